@@ -72,6 +72,16 @@ func (c *deleteCleaner) Clean(segments []*segment) ([]*segment, error) {
 		}
 	}
 
+	// Removing segments by count or size can uncover segments older than the
+	// age limit which the first pass stopped short of (last-write times are
+	// not necessarily monotonic across segments), so enforce it again.
+	if c.Retention.Age > 0 {
+		segments, err = c.applyAgeLimit(segments)
+		if err != nil {
+			return nil, errors.Wrap(err, "failed to apply age retention limit")
+		}
+	}
+
 	return segments, nil
 }
 
